@@ -38,6 +38,10 @@ def _side(ctx, rule, name):
         return fi, None, None
     subject = js.subject_of(chain)
     if subject is None:
+        # not one if-chain with its guards in the tests: interpret the whole dispatch region (flags, several chains, one store)
+        region = js.find_region(fi)
+        if region is not None:
+            return fi, region, region.subject
         ctx.undecided(rule, fi, "%s: the dispatched value (first argument of the isinstance guards) is not unique" % name)
         return fi, None, None
     return fi, chain, subject
